@@ -28,13 +28,14 @@ const (
 )
 
 type Obj struct {
-	id    int
-	name  string
-	kind  ObjKind
-	T     types.Type // cell content type / element type for arrays
-	init  func() Value
-	owner int // activation serial that allocated it (0 = input/global)
-	fresh bool
+	id       int
+	name     string
+	kind     ObjKind
+	T        types.Type // cell content type / element type for arrays
+	init     func() Value
+	owner    int // activation serial that allocated it (0 = input/global)
+	fresh    bool
+	readonly bool // view of an immutable byte-string term: stores are outside the subset
 }
 
 func (o *Obj) String() string { return fmt.Sprintf("obj%d(%s)", o.id, o.name) }
@@ -300,7 +301,7 @@ func unsupported(msg string) *Unsupported {
 	}
 	return &Unsupported{msg}
 }
-func (u *Unsupported) Error() string      { return "outside subset: " + u.Msg }
+func (u *Unsupported) Error() string { return "outside subset: " + u.Msg }
 
 // ---------- well-known literals ----------
 
@@ -315,7 +316,7 @@ var (
 func TagOf(t types.Type) *Term { return Lit(TagSort, typeName(t)) }
 func tagOfItem(x *Term) *Term  { return App("tagOf", TagSort, x) }
 
-func SLen(s *Term) *Term {
+func SLenRaw(s *Term) *Term {
 	if s.Op == "lit" {
 		return IntLit(int64(len(s.Name)))
 	}
@@ -327,7 +328,7 @@ func SLen(s *Term) *Term {
 	}
 	return App("slen", SInt, s)
 }
-func BLen(b *Term) *Term {
+func BLenRaw(b *Term) *Term {
 	if b == BytesNil {
 		return IntLit(0)
 	}
@@ -354,7 +355,7 @@ func S2B(s *Term) *Term {
 	}
 	return App("s2b", SBytes, s)
 }
-func B2S(b *Term) *Term {
+func B2SRaw(b *Term) *Term {
 	if b == BytesNil {
 		return StrLit("")
 	}
@@ -402,7 +403,7 @@ func SCat(a, b *Term) *Term {
 	}
 	return App("scat", SStr, a, b)
 }
-func Fold(s *Term) *Term {
+func FoldRaw(s *Term) *Term {
 	if s.Op == "lit" {
 		return StrLit(strings.ToLower(s.Name))
 	}
@@ -412,7 +413,7 @@ func Fold(s *Term) *Term {
 	return App("fold", SStr, s)
 }
 func EqFold(a, b *Term) *Term { return Eq(Fold(a), Fold(b)) }
-func Inst(t *Term) *Term {
+func InstRaw(t *Term) *Term {
 	if t == TimeZero {
 		return IntLit(0)
 	}
@@ -421,6 +422,27 @@ func Inst(t *Term) *Term {
 	}
 	return App("inst", SInt, t)
 }
+
+var memoT = map[string]map[*Term]*Term{}
+
+func memo1(name string, f func(*Term) *Term, t *Term) *Term {
+	m := memoT[name]
+	if m == nil {
+		m = map[*Term]*Term{}
+		memoT[name] = m
+	}
+	if r, ok := m[t]; ok {
+		return r
+	}
+	r := f(t)
+	m[t] = r
+	return r
+}
+func SLen(s *Term) *Term { return memo1("slen", SLenRaw, s) }
+func BLen(b *Term) *Term { return memo1("blen", BLenRaw, b) }
+func B2S(b *Term) *Term  { return memo1("b2s", B2SRaw, b) }
+func Fold(s *Term) *Term { return memo1("fold", FoldRaw, s) }
+func Inst(t *Term) *Term { return memo1("inst", InstRaw, t) }
 
 // theoryAxioms instantiates the small ground theories on the terms that occur.
 func theoryAxioms(all []*Term) []*Term {
